@@ -213,11 +213,18 @@ theorem Prov.runClosure {T U : List Nat} {s : Sys} (h : Prov T U s) (t : Nat) (c
 
 /-! ### the collector's drain and cycle -/
 
-theorem Prov.finishCycle {T U : List Nat} {s : Sys} (h : Prov T U s) (kept : List (Nat × Ring Cmd)) (buf : List Cmd)
-    (hk : RingsOk T kept) (hb : ∀ c ∈ buf, CmdOk T c) :
-    Prov T U (s.finishCycle kept buf).1 ∧ ∀ rs, (s.finishCycle kept buf).2 = some rs → RecsOk T rs := by
+theorem Prov.finishCycle {T U : List Nat} {s : Sys} (h : Prov T U s) (kept : List (Nat × Ring Cmd)) (buf buf2 : List Cmd)
+    (hk : RingsOk T kept) (hb : ∀ c ∈ buf, CmdOk T c) (hb2 : ∀ c ∈ buf2, CmdOk T c) :
+    Prov T U (s.finishCycle kept buf buf2).1 ∧ ∀ rs, (s.finishCycle kept buf buf2).2 = some rs → RecsOk T rs := by
   unfold Sys.finishCycle
-  have hc := cycleProcess_ok T id s.coll buf h.coll hb
+  have hbatch : ∀ c ∈ s.deferred.map Cmd.commit ++ buf ++ buf2.filter (fun c => !c.isCommit), CmdOk T c := by
+    intro c hc
+    simp only [List.mem_append, List.mem_map, List.mem_filter] at hc
+    rcases hc with (⟨id, _, rfl⟩ | hc) | ⟨hc, _⟩
+    · trivial
+    · exact hb c hc
+    · exact hb2 c hc
+  have hc := cycleProcess_ok T id s.coll _ h.coll hbatch
   dsimp only
   exact ⟨⟨h.spans, h.adapters, h.threads, hk, (fun cs hcs => nomatch hcs), hc.1⟩, hc.2⟩
 
@@ -249,11 +256,18 @@ theorem Prov.cycle {T U : List Nat} {s : Sys} (h : Prov T U s) :
     Prov T U s.cycle.1 ∧ ∀ rs, s.cycle.2 = some rs → RecsOk T rs := by
   unfold Sys.cycle
   have hd := drainAll_ok s.rxs h.rxs
-  exact h.finishCycle _ _ hd.1 hd.2
+  exact h.finishCycle _ _ [] hd.1 hd.2 (by simp)
+
+/-- what the drain state of a cycle in progress holds -/
+def CycOk (T : List Nat) (cs : CycState) : Prop :=
+  RingsOk T cs.todo ∧ RingsOk T cs.kept ∧ (∀ c ∈ cs.buf, CmdOk T c) ∧ ∀ c ∈ cs.buf2, CmdOk T c
 
 theorem Prov.withCyc {T U : List Nat} {s : Sys} (h : Prov T U s) (cs : CycState)
-    (hcs : RingsOk T cs.todo ∧ RingsOk T cs.kept ∧ ∀ c ∈ cs.buf, CmdOk T c) : Prov T U { s with cyc := some cs } :=
+    (hcs : CycOk T cs) : Prov T U { s with cyc := some cs } :=
   ⟨h.spans, h.adapters, h.threads, h.rxs, (fun cs' e => by cases e; exact hcs), h.coll⟩
+
+theorem CycOk.afterFirst {T : List Nat} {cs : CycState} (h : CycOk T cs) : CycOk T cs.afterFirst.1 := by
+  rcases CycState.afterFirst_cases cs with e | e <;> rw [e] <;> exact h
 
 theorem ringsOk_cons {T : List Nat} {e : Nat × Ring Cmd} {l : List (Nat × Ring Cmd)} :
     RingsOk T (e :: l) ↔ (∀ c ∈ e.2.q, CmdOk T c) ∧ RingsOk T l := by
@@ -273,19 +287,41 @@ theorem Prov.cycStep {T U : List Nat} {s : Sys} (h : Prov T U s) :
   cases hc : s.cyc with
   | none => exact ⟨h, fun rs e => by cases e⟩
   | some cs =>
-    obtain ⟨h1, h2, h3⟩ := h.cyc cs hc
+    have hcs : CycOk T cs := h.cyc cs hc
+    obtain ⟨h1, h2, h3, h4⟩ := hcs
     dsimp only
     split
     · -- atReport
-      have := h.finishCycle cs.kept cs.buf h2 h3
+      have := h.finishCycle cs.kept cs.buf cs.buf2 h2 h3 h4
       dsimp only
       exact ⟨this.1, fun rs e => this.2 rs (by simpa using e)⟩
-    · exact ⟨h.withCyc _ ⟨h1, h2, h3⟩, fun rs e => by cases e⟩
+    · -- atRx2
+      split
+      · exact ⟨h.withCyc _ ⟨h1, h2, h3, h4⟩, fun rs e => by cases e⟩
+      · rename_i t rest _
+        have hr : ∀ c ∈ ((natGet cs.kept t).getD (Ring.new Consts.ringCap)).q, CmdOk T c := by
+          cases hg : natGet cs.kept t with
+          | none => simp [Ring.new]
+          | some r => simpa using h2.natGet hg
+        have hk : RingsOk T (natSet cs.kept t { (natGet cs.kept t).getD (Ring.new Consts.ringCap) with q := [] }) :=
+          h2.natSet t _ (by simp)
+        have hb2 : ∀ c ∈ cs.buf2 ++ ((natGet cs.kept t).getD (Ring.new Consts.ringCap)).q, CmdOk T c := by
+          intro c hcm
+          simp only [List.mem_append] at hcm
+          rcases hcm with hcm | hcm
+          · exact h4 c hcm
+          · exact hr c hcm
+        split
+        · exact ⟨h.withCyc _ ⟨h1, hk, h3, hb2⟩, fun rs e => by cases e⟩
+        · exact ⟨h.withCyc _ ⟨h1, hk, h3, hb2⟩, fun rs e => by cases e⟩
+    · -- first pass over, nothing left to visit
+      have hcs' : CycOk T cs.afterFirst.1 := CycOk.afterFirst ⟨h1, h2, h3, h4⟩
+      exact ⟨h.withCyc _ hcs', fun rs e => by cases e⟩
     · -- atRx
       rename_i t r rest _ htodo
       rw [htodo] at h1
       have hh := ringsOk_cons.mp h1
-      refine ⟨h.withCyc _ ⟨?_, h2, ?_⟩, fun rs e => by cases e⟩
+      refine ⟨h.withCyc _ ⟨?_, h2, ?_, h4⟩, fun rs e => by cases e⟩
       · exact ringsOk_cons.mpr ⟨by simp, hh.2⟩
       · intro c hcm
         simp only [List.mem_append] at hcm
@@ -298,13 +334,17 @@ theorem Prov.cycStep {T U : List Nat} {s : Sys} (h : Prov T U s) :
       have hh := ringsOk_cons.mp h1
       split
       · split
-        · exact ⟨h.withCyc _ ⟨by simp [RingsOk], ringsOk_append_single h2 hh.1, h3⟩, fun rs e => by cases e⟩
-        · exact ⟨h.withCyc _ ⟨hh.2, ringsOk_append_single h2 hh.1, h3⟩, fun rs e => by cases e⟩
+        · have hcs' : CycOk T (CycState.afterFirst { cs with phase := .atRx, todo := [], kept := cs.kept ++ [(t, r)] }).1 :=
+            CycOk.afterFirst ⟨by simp [RingsOk], ringsOk_append_single h2 hh.1, h3, h4⟩
+          exact ⟨h.withCyc _ hcs', fun rs e => by cases e⟩
+        · exact ⟨h.withCyc _ ⟨hh.2, ringsOk_append_single h2 hh.1, h3, h4⟩, fun rs e => by cases e⟩
       · split
         · split
-          · exact ⟨h.withCyc _ ⟨by simp [RingsOk], h2, h3⟩, fun rs e => by cases e⟩
-          · exact ⟨h.withCyc _ ⟨hh.2, h2, h3⟩, fun rs e => by cases e⟩
-        · refine ⟨h.withCyc _ ⟨?_, h2, ?_⟩, fun rs e => by cases e⟩
+          · have hcs' : CycOk T (CycState.afterFirst { cs with phase := .atRx, todo := [] }).1 :=
+              CycOk.afterFirst ⟨by simp [RingsOk], h2, h3, h4⟩
+            exact ⟨h.withCyc _ hcs', fun rs e => by cases e⟩
+          · exact ⟨h.withCyc _ ⟨hh.2, h2, h3, h4⟩, fun rs e => by cases e⟩
+        · refine ⟨h.withCyc _ ⟨?_, h2, ?_, h4⟩, fun rs e => by cases e⟩
           · exact ringsOk_cons.mpr ⟨by simp, hh.2⟩
           · intro c hcm
             simp only [List.mem_append] at hcm
@@ -320,8 +360,8 @@ theorem Prov.cycBegin {T U : List Nat} {s : Sys} (h : Prov T U s) :
   | none =>
     dsimp only
     split
-    · exact ⟨h.withCyc _ ⟨by simp [RingsOk], by simp [RingsOk], by simp⟩, fun rs e => by cases e⟩
-    · exact ⟨h.withCyc _ ⟨h.rxs, by simp [RingsOk], by simp⟩, fun rs e => by cases e⟩
+    · exact ⟨h.withCyc _ ⟨by simp [RingsOk], by simp [RingsOk], by simp, by simp⟩, fun rs e => by cases e⟩
+    · exact ⟨h.withCyc _ ⟨h.rxs, by simp [RingsOk], by simp, by simp⟩, fun rs e => by cases e⟩
 
 /-! ### thread exit, spam, adapters -/
 
